@@ -16,13 +16,13 @@ def tmpl(t, p, selfty):
     return {"direct": "%s" % p, "vec": "Vec<%s>" % p, "opt": "Option<%s>" % p, "arr": "[%s; 2]" % p, "tup": "(%s, u8)" % p, "box": "Box<%s>" % p,
             "result": "Result<%s, String>" % p, "phantom": "PhantomData<%s>" % p, "assoc": "%s::A" % p, "qassoc": "<%s as Cfg>::A" % p,
             "vecassoc": "Vec<%s::A>" % p, "selfbox": "Box<%s>" % selfty, "selfvec": "Vec<%s>" % selfty, "selfkw": "Option<Box<Self>>",
-            "selfmix": "Vec<(%s, %s)>" % (selfty, p), "selfassoc": "Vec<(%s, %s::A)>" % (selfty, p),
+            "selfmix": "Vec<(%s, %s)>" % (selfty, p), "selfassoc": "Vec<(%s, %s::A)>" % (selfty, p), "selfqassoc": "Vec<(%s, <%s as Cfg>::A)>" % (selfty, p),
             "skipT": "#[codec(skip)] %s" % p, "skipNoInfoG": "#[codec(skip)] NoInfoG<%s>" % p, "skipNoInfo": "#[codec(skip)] NoInfo",
             "compactc": "#[codec(compact)] u32", "concrete": "u64", "compactp": "#[codec(compact)] %s" % p, "compactassoc": "#[codec(compact)] %s::A" % p}[t]
 
-NEEDS_CFG = {"assoc", "qassoc", "vecassoc", "selfassoc", "compactassoc"}
+NEEDS_CFG = {"assoc", "qassoc", "vecassoc", "selfassoc", "selfqassoc", "compactassoc"}
 NAMED = {"assocnamed", "vecassocnamed"}
-MENTIONS = {"assocnamed", "vecassocnamed", "compactp", "compactassoc", "direct", "vec", "opt", "arr", "tup", "box", "result", "phantom", "assoc", "qassoc", "vecassoc", "selfmix", "selfassoc", "skipT", "skipNoInfoG"}
+MENTIONS = {"assocnamed", "vecassocnamed", "compactp", "compactassoc", "direct", "vec", "opt", "arr", "tup", "box", "result", "phantom", "assoc", "qassoc", "vecassoc", "selfmix", "selfassoc", "selfqassoc", "skipT", "skipNoInfoG"}
 
 def program(g, i):
     name = "G%d" % i
